@@ -59,6 +59,9 @@ func combosFor(rt *routine, all []combo) []combo {
 		if !rt.consOpt {
 			c.Cons = "none"
 		}
+		if rt.name == "lineSearch" {
+			c.EpsExp = 6 // the line search has no epsilon
+		}
 		if rt.smallCap == 0 {
 			c.Maxit = -1
 		}
@@ -83,7 +86,13 @@ func buildRuns(cases []*caseT, combos []combo) []runSpec {
 			}
 			for si := range c.Starts {
 				for _, v := range rt.variants {
+					if (v == "poly") != (c.Kind == "line1d") {
+						continue
+					}
 					for _, o := range cs {
+						if c.Kind == "line1d" && o.Cons != "none" {
+							continue
+						}
 						if o.Cons == "half" && !c.Starts[si].Half.Has {
 							continue
 						}
@@ -204,7 +213,9 @@ func main() {
 		if families[rn] == nil {
 			families[rn] = map[string]bool{}
 		}
-		families[rn][fam] = true
+		if fam != "line1d" { // taken completely, outside the sampling
+			families[rn][fam] = true
+		}
 	}
 	selected := []runSpec{}
 	for i := range all {
@@ -217,6 +228,11 @@ func main() {
 		}
 		if f := os.Getenv("OPTIM_ROUTINE"); f != "" && !strings.Contains(","+f+",", ","+rs.routineName()+",") {
 			continue // debugging aid: restrict to some routines
+		}
+		if cases[rs.ci].Kind == "line1d" {
+			// the boundary cases of spec/WolfeCases.tla are few and cheap: all of them, with every option combination
+			selected = append(selected, rs)
+			continue
 		}
 		tot := perStratum[rs.routineName()+"/"+cases[rs.ci].Kind]
 		share := (target + len(families[rs.routineName()]) - 1) / len(families[rs.routineName()])
